@@ -122,6 +122,10 @@ def gen_case(rng, tier):
         if rng.random() < 0.45:
             e["weight"] = str(Fraction(rng.randint(1, 6), 1 if integer else rng.choice([1, 2])))
             e["penalty"] = rng.choice(['linear', 'quadratic'])
+        elif not integer and not e["quad"] and rng.random() < 0.25:
+            # a HARD, linear constraint violated (or satisfied) by far less than any 'reasonable' tolerance but not by zero:
+            # 2**-30 next to small dyadics is exact in binary64 as long as nothing is squared (so: no penalty, no products)
+            e["off"] = str(Fraction(e["off"]) + Fraction(rng.choice([1, -1]), 2 ** 30))
         cons.append(e)
     rows = [[rand_value(rng, v) for v in vars_] for _ in range(rng.randint(1, 6))]
     if rng.random() < 0.03:
@@ -448,6 +452,11 @@ def run_case(c):
         vclip = list(cqm.iter_violations(s, clip=True))
         vskip = list(cqm.iter_violations(s, skip_satisfied=True))
         vboth = list(cqm.iter_violations(s, skip_satisfied=True, clip=True))
+        # skip_satisfied drops exactly the constraints whose violation is <= 0 (no tolerance is documented), clip floors at 0
+        if vskip != [(l, v) for l, v in cqm.iter_violations(s) if v > 0]:
+            py_fail = "iter_violations(skip_satisfied=True) is not the list of constraints with a positive violation"
+        if vboth != [(l, v) for l, v in vclip if v > 0]:
+            py_fail = "iter_violations(skip_satisfied=True, clip=True) is not the list of constraints with a positive violation"
         if dict(cqm.iter_violations(s)) != viol or cqm.violations(s, clip=True) != dict(vclip) \
                 or cqm.violations(s, skip_satisfied=True) != dict(vskip):
             py_fail = "violations() differs from iter_violations()"
